@@ -167,12 +167,13 @@ TrIdleSpare ==
          /\ idle[a] # <<>> /\ Head(idle[a]) = E.s
          /\ idle' = [idle EXCEPT ![a] = Append(Tail(@), E.s)]
     /\ UNCHANGED <<conns, cursor, addrOf, alive, open, used, up, closed, failsSince>> /\ Rest /\ KeepBusy /\ Adv /\ NoFlag
-TrApiRet ==      \* E.a: 0 ok, 1 ErrShutdown, 2 ErrDial, 3 other, 4 the caller's own context ended (CallWithContext);  E.b = 1: answered by the server of the requested address
+TrApiRet ==      \* E.a: 0 ok, 1 ErrShutdown, 2 ErrDial, 3 other, 4 the caller's own context ended (CallWithContext), 5 a stream broke with its connection, 6 the read error of the connection passed through to a call in flight, 7 the same error on a call handed the connection after it had ended;  E.b = 1: answered by the server of the requested address
     /\ IsEv("api.ret")
     /\ LET k == E.c IN
        /\ failsSince' = IF k \in Callers THEN [failsSince EXCEPT ![k] = IF E.a = 1 THEN @ + 1 ELSE IF E.a = 0 THEN 0 ELSE @] ELSE failsSince
        /\ bad' = bad \cup (IF E.b # 1 THEN {<<l, "wrongserver">>} ELSE {})
                      \cup (IF E.a = 3 THEN {<<l, "othererror">>} ELSE {})
+                     \cup (IF E.a = 7 THEN {<<l, "rawrefusal">>} ELSE {})
     /\ LET k == E.c IN
        IF k \in Callers /\ cconn[k] # NoConn
          THEN /\ busy' = [busy EXCEPT ![cconn[k]] = @ - 1]
@@ -196,6 +197,10 @@ TrDrop ==     \* one connection cut by the environment; its effects are logged (
     /\ broken' = [broken EXCEPT ![E.s] = TRUE]
     /\ UNCHANGED <<conns, cursor, idle, addrOf, alive, open, used, up, closed, failsSince>> /\ RestNB /\ KeepBusy /\ Adv /\ NoFlag
 TrObsClosing == IsEv("obs.closing") /\ UNCHANGED vars /\ Adv /\ NoFlag
+TrObsDupSignal ==   \* the Done channel of an asynchronous call (Go / RoundTrip) was signalled a second time
+    /\ IsEv("obs.dupsignal")
+    /\ bad' = bad \cup {<<l, "dupsignal">>}
+    /\ UNCHANGED vars /\ Adv
 TrObsDupExec ==   \* a request was executed E.a > 1 times: something re-issued the call
     /\ IsEv("obs.dupexec")
     /\ bad' = bad \cup {<<l, "dupexec">>}
@@ -208,7 +213,7 @@ TrObsEnd ==      \* E.a = sockets still open after Close and after every caller 
 TrNext ==
     \/ TrReset \/ TrDial \/ TrIdleDeq \/ TrGet \/ TrDead \/ TrConnClose \/ TrTick \/ TrTickEnd \/ TrRetire \/ TrIdleClose
     \/ TrCloseIdleActive \/ TrApiCloseIdle \/ TrCloseBegin \/ TrCloseConn \/ TrClosed
-    \/ TrApiCall \/ TrApiReg \/ TrIdleSpare \/ TrApiRet \/ TrKill \/ TrRestart \/ TrDrop \/ TrObsClosing \/ TrObsDupExec \/ TrObsEnd
+    \/ TrApiCall \/ TrApiReg \/ TrIdleSpare \/ TrApiRet \/ TrKill \/ TrRestart \/ TrDrop \/ TrObsClosing \/ TrObsDupSignal \/ TrObsDupExec \/ TrObsEnd
 
 TrSpec == TrInit /\ [][TrNext]_tvars
 
@@ -225,5 +230,7 @@ AppendWithinLimit == BadWhat("appendfull")                             \* C13
 CloseClosedAll == BadWhat("notclosed") /\ BadWhat("socketsleft")      \* C15 / C20
 NoOtherError == BadWhat("othererror")
 NoHealthyMarkedDead == BadWhat("deadhealthy")                          \* C19 / C14: only a connection that ended is given up
+NoRawRefusal == BadWhat("rawrefusal")                                  \* C14: a call handed a dead connection is refused with ErrShutdown (what marks it dead)
+NoDupSignal == BadWhat("dupsignal")                                    \* C02 at the pool level
 NoDupExec == BadWhat("dupexec")                                        \* C04
 ================================================================================
